@@ -12,17 +12,38 @@ VERIF = os.path.dirname(os.path.dirname(os.path.abspath(__file__)))
 WITNESS = os.path.join(VERIF, "witness")
 
 
+SEEDED = os.path.join(VERIF, "seeded")
+TWINS = os.path.join(VERIF, "twins")
+
+
 def load(prop):
+    """one-edit mutants and twins (witness/*.json), the seeded changes written against this property by independent
+    sub-agents (seeded/*/patch.diff: must be reported, unless neutralised by a later fix) and the behaviour-preserving
+    maintenance patches (twins/*.diff: must stay silent for every property)"""
     out = []
-    if not os.path.isdir(WITNESS):
-        return out
-    for f in sorted(os.listdir(WITNESS)):
-        if not f.endswith(".json"):
-            continue
-        w = json.load(open(os.path.join(WITNESS, f)))
-        w["name"] = f[:-5]
-        if prop in w["properties"]:
-            out.append(w)
+    if os.path.isdir(WITNESS):
+        for f in sorted(os.listdir(WITNESS)):
+            if not f.endswith(".json"):
+                continue
+            w = json.load(open(os.path.join(WITNESS, f)))
+            w["name"] = f[:-5]
+            if prop in w["properties"]:
+                out.append(w)
+    if os.path.isdir(SEEDED):
+        for d in sorted(os.listdir(SEEDED)):
+            mp = os.path.join(SEEDED, d, "meta.json")
+            pp_ = os.path.join(SEEDED, d, "patch.diff")
+            if not (os.path.exists(mp) and os.path.exists(pp_)):
+                continue
+            m = json.load(open(mp))
+            if m.get("property") != prop:
+                continue
+            out.append(dict(name="seeded/" + d, properties=[prop], patch=pp_,
+                            expect="silent" if m.get("obsolete") else [""]))
+    if os.path.isdir(TWINS) and not os.environ.get("VERIF_NO_TWINS"):
+        for f in sorted(os.listdir(TWINS)):
+            if f.endswith(".diff"):
+                out.append(dict(name="twins/" + f[:-5], properties=[prop], patch=os.path.join(TWINS, f), expect="silent"))
     return out
 
 
@@ -33,7 +54,11 @@ def run_one(w, prop, repo):
         r = subprocess.run(["rsync", "-a", "--exclude", "/target", "--exclude", ".git", repo + "/", src + "/"])
         if r.returncode != 0:
             return w["name"], "skipped", "rsync failed"
-        for ed in w["edits"]:
+        if w.get("patch"):
+            r = subprocess.run(["git", "apply", w["patch"]], cwd=src, stdout=subprocess.PIPE, stderr=subprocess.STDOUT, text=True)
+            if r.returncode != 0:
+                return w["name"], "skipped", "patch does not apply to the current tree"
+        for ed in w.get("edits", []):
             p = os.path.join(src, ed["file"])
             if not os.path.exists(p):
                 return w["name"], "skipped", "file missing: " + ed["file"]
